@@ -346,7 +346,6 @@ func TestC12Constants(t *testing.T) {
 		}
 	}
 	col.Exhaustive = true
-	replaySaved(t, "C12")
 }
 
 // ---- native coverage-guided fuzzing (thorough tier only) --------------------------------------------------------------
